@@ -22,7 +22,7 @@ import (
 
 func TestMain(m *testing.M) {
 	time.Local = time.UTC
-	ev.Describe("batches of 4..16 calls (all operations) on one client against the loopback farm, each call with a drawn delivery path (broadcast, connected UDP, TCP) and network behaviour: silence, genuine reply after a drawn fraction 0..0.8 of the timeout, flood of irrelevant datagrams that lasts 4x the timeout (with or without a genuine reply in the middle), TCP accept-and-stall, TCP reset, TCP clean close without a reply (EOF), part of a reply then close, a reply that trickles in a few bytes every 0.7 x timeout, refused port, a dense stream of datagrams that starts just before the deadline and ends just after it (discovery: well-formed replies); optionally a fixed bind port, and a closing group of 2..4 concurrent calls that have to queue for it while their controllers answer a drawn fraction of the timeout after being asked. Oracle per call: it returns (watchdog: timeout + 5 s = hang); elapsed <= 1.5 x timeout + 200 ms (k x timeout for the k-th queued call); an error exactly when no acceptable reply came; a reply sent before 0.8 x timeout after the request was seen is accepted (timeouts 80..250 ms, now and then 1.25-1.4 s with replies later than one second). Per batch (GC disabled): socket descriptors in /proc/self/fd and goroutines with a uhppote-core frame are, after a settling poll of <= 2 s, what they were before. Non-trivial = call that had to wait for its deadline or met a fault; distinct = distinct batch.",
+	ev.Describe("two endpoint scenarios: a TCP connect that completes only on the SYN retransmission (about 1 s) with a reply before / after the deadline of the whole call, and a broadcast to an address that answers with ICMP unreachable while the addressed controller replies a little later; batches of 4..16 calls (all operations) on one client against the loopback farm, each call with a drawn delivery path (broadcast, connected UDP, TCP) and network behaviour: silence, genuine reply after a drawn fraction 0..0.8 of the timeout, flood of irrelevant datagrams that lasts 4x the timeout (with or without a genuine reply in the middle), TCP accept-and-stall, TCP reset, TCP clean close without a reply (EOF), part of a reply then close, a reply that trickles in a few bytes every 0.7 x timeout, refused port, a dense stream of datagrams that starts just before the deadline and ends just after it (discovery: well-formed replies); optionally a fixed bind port, and a closing group of 2..4 concurrent calls that have to queue for it while their controllers answer a drawn fraction of the timeout after being asked. Oracle per call: it returns (watchdog: timeout + 5 s = hang); elapsed <= 1.5 x timeout + 200 ms (k x timeout for the k-th queued call); an error exactly when no acceptable reply came; a reply sent before 0.8 x timeout after the request was seen is accepted (timeouts 80..250 ms, now and then 1.25-1.4 s with replies later than one second). Per batch (GC disabled): socket descriptors in /proc/self/fd and goroutines with a uhppote-core frame are, after a settling poll of <= 2 s, what they were before. Non-trivial = call that had to wait for its deadline or met a fault; distinct = distinct batch.",
 		"time is never a verdict on its own: a failed batch is re-run with every delay and timeout scaled x4 and again x16; only a failure that persists at every scale counts, otherwise the batch is 'timing inconclusive'",
 		"overruns smaller than the slack (0.5 x timeout + 200 ms) are invisible")
 	ev.Main(m, "C09")
@@ -498,7 +498,10 @@ func genBatch(t *rapid.T) batch {
 }
 
 func props() []rp.Prop {
-	return []rp.Prop{rp.P[batch]{Name: "batch", Checks: ev.Pick(160, 9600) / ev.Shards(), Gen: genBatch, Check: check}}
+	return []rp.Prop{
+		rp.P[batch]{Name: "batch", Checks: ev.Pick(160, 9600) / ev.Shards(), Gen: genBatch, Check: check},
+		rp.P[scenario]{Name: "scenario", Sweep: sweepScenarios, Check: checkScenario},
+	}
 }
 
 func TestC09(t *testing.T)    { rp.RunAll(t, props()...) }
